@@ -97,6 +97,9 @@ def cargo_build(binname, timeout=1500):
     if not lock.exists():
         shutil.copy(REPO / "Cargo.lock", lock)
     env = {"CARGO_NET_OFFLINE": "true"}
+    if os.environ.get("VERIF_TARGET_DIR"):          # development only: private target dir
+        env["CARGO_TARGET_DIR"] = os.environ["VERIF_TARGET_DIR"]
+        out = Path(os.environ["VERIF_TARGET_DIR"]) / "debug" / binname
     rc, so, se = sh(["cargo", "build", "--offline", "--bin", binname], cwd=hd, env=env,
                     timeout=timeout, check=False)
     if rc != 0:
